@@ -207,6 +207,47 @@ MUTANTS["m59_any_set_also_gets_eoi_targets"] = (["C05", "C02"], [(N2D, """      
 """, """            any_transitions.extend(nfa.any_transitions(nfa_state));
             any_transitions.extend(nfa.end_of_input_transitions(nfa_state));
 """)], "targets of `$` are also reached by consuming any character")
+MUTANTS["m60_range_targets_without_any"] = (["C01", "C02"], [(N2D, """            for any_next in &any_transitions {
+                range_states.insert(*any_next);
+            }
+""", "")], "a range transition no longer includes the targets of `_`")
+MUTANTS["m61_any_into_chars_only_when_ranges_exist"] = (["C01", "C02"], [(N2D, """            // Same for '_' (match any character) transitions
+            for any_next in &any_transitions {
+                char_states.insert(*any_next);
+            }
+""", """            // Same for '_' (match any character) transitions
+            if range_transitions.len() != 0 {
+                for any_next in &any_transitions {
+                    char_states.insert(*any_next);
+                }
+            }
+""")], "`_` targets are added to a character's targets only when the state also has range transitions")
+MUTANTS["m62_eoi_targets_of_accepting_members_only"] = (["C05", "C02"], [(N2D, """            end_of_input_transitions.extend(nfa.end_of_input_transitions(nfa_state));
+""", """            if nfa.get_accepting_state(nfa_state).is_none() {
+                end_of_input_transitions.extend(nfa.end_of_input_transitions(nfa_state));
+            }
+""")], "`$` transitions of accepting NFA states are not collected")
+MUTANTS["m63_state_registered_before_surrogate_piece_is_dropped"] = (["C12"], [(N2D, """            let (range_start, range_end) = match clamp_to_chars(range.start, range.end) {
+                Some(range) => range,
+                None => continue,
+            };
+
+            let mut range_states: Set<NfaStateIdx> = range.value;
+""", """            let clamped = clamp_to_chars(range.start, range.end);
+
+            let mut range_states: Set<NfaStateIdx> = range.value;
+"""), (N2D, """            let dfa_state = dfa_state_of_nfa_states(&mut dfa, &mut state_map, closure.clone());
+
+            dfa_range_transitions.push(Range {""", """            let dfa_state = dfa_state_of_nfa_states(&mut dfa, &mut state_map, closure.clone());
+
+            let (range_start, range_end) = match clamped {
+                Some(range) => range,
+                None => continue,
+            };
+
+            dfa_range_transitions.push(Range {""")],
+    "the DFA state of a range piece is created before the piece is dropped for covering only surrogates: an "
+    "orphan state, update_backtracks' assertion fails, the expansion panics")
 REVERTS = {
     "r01_revert_F1": ("1a68785", ["C01", "C12"]),
     "r02_revert_F2": ("551ccb8", ["C04", "C12"]),
